@@ -8,6 +8,7 @@ open Odf
 structure DState where
   tbl : Table.Tbl := Table.parse [] []
   row : Table.RowObj := Table.rowObj []
+  sgrid : Span.SGrid := []
 
 def step (st : DState) (line : String) : DState × String :=
   match (line.trimAscii.toString.splitOn " ").filter (· ≠ "") with
@@ -18,6 +19,11 @@ def step (st : DState) (line : String) : DState × String :=
   | "name" :: rest => (st, Drv.Names.handle rest)
   | "row" :: "trav" :: rest => (st, Drv.Row.handleTrav st.row rest)
   | "row" :: rest => let (r, o) := Drv.Row.handle st.row rest; ({ st with row := r }, o)
+  | "tbl" :: "x" :: rest =>
+    match Drv.Transform.handleTbl st.tbl rest with
+    | some (t, o) => ({ st with tbl := t }, o)
+    | none => (st, "bad-op")
+  | "span" :: rest => let (g, o) := Drv.Transform.handleSpan st.sgrid rest; ({ st with sgrid := g }, o)
   | "tbl" :: rest => let (t, o) := Drv.Table.handle st.tbl rest; ({ st with tbl := t }, o)
   | _ => (st, "bad-op")
 
